@@ -19,6 +19,9 @@ Reading guide
 import EPV.Lemmas.BuilderMain
 import EPV.Lemmas.BuilderOps
 import EPV.Lemmas.XDMItems
+import EPV.Lemmas.XDMParents
+import EPV.Lemmas.BuilderAnc
+import EPV.Lemmas.BuilderLoop
 namespace EPV.C02
 open EPV.Builder EPV.XDM
 
@@ -48,6 +51,30 @@ example :
     let i : Input := { cfg := { lxml := true, namespaces := [], fragment := none }, isTree := true,
                        prolog := [.pi "p" "d" none], top := some t, epilog := [], path := [] }
     (build i).toOption.map (fun r => (iter r).map (·.pos)) = some (List.range' 1 15) ∧ inputWF i = true := by
+  decide
+
+/-! ## the explicit-stack loop of the Python builders -/
+
+/-- LOOP = RECURSION.  The `while True / for elem in children / else: pop` loop of `build_node_tree` and
+`build_lxml_node_tree`, transcribed with its `iterators` / `ancestors` stacks, current `parent`,
+running `position` and the `parent.children[-1].elem.tail` lookup (EPV/Model/BuilderLoop.lean), entered
+for any root element `e` created at any position `p`: it terminates within `stepsKids e.kids + 1`
+passes, never takes the crashing branch, and the nodes it has constructed are — in order, with
+positions, parents and contents — exactly the eagerly built nodes (everything except the lazy
+namespace/attribute nodes) of the recursive `buildOne` that all other theorems speak about. -/
+theorem loop_eq_build (c : Cfg) (par : Option Nat) (p : Nat) (e : XTree) (he : e.isElem = true) :
+    ∃ out, run c (stepsKids e.kids + 1) (enterLoop c par p e) = some out ∧
+      out.map (·.node) = (iterNode par (buildOne c p e).1).filter eager :=
+  run_enterLoop c par p e he
+
+/-- test on a literal: the loop on `<a>x<b><c/>t<!--k-->u</b>v<d w="1"/></a>` (7 passes) -/
+example :
+    let t : XTree := .elem "a" [] [] (some "x")
+      [.elem "b" [] [] none [.elem "c" [] [] none [] (some "t"), .comment "k" (some "u")] (some "v"),
+       .elem "d" [] [("w", "1")] none [] none] none
+    let c : Cfg := { lxml := false, namespaces := [], fragment := none }
+    stepsKids t.kids + 1 = 6 ∧
+    ((run c 6 (enterLoop c none 1 t)).map fun out => out.map (·.node.pos)) = some [1, 3, 4, 6, 8, 9, 10, 11, 12] := by
   decide
 
 /-! ## faithful image of the XDM tree -/
@@ -94,6 +121,45 @@ theorem gap_exact_subtree (c : Cfg) (t : XTree) (p : Nat) (hwf : treeWF c t = tr
     (buildOne c p t).2 = p + (itemsOne c none 0 t).length := by
   have := (buildOne_spec c true p t p 0 none rfl hwf (by intro hb; cases hb)).2
   exact this
+
+theorem blankIf_fields (b : Bool) (r : Rec) :
+    (blankIf b r).pos = r.pos ∧ (blankIf b r).parent = r.parent ∧ (blankIf b r).kind = r.kind := by
+  unfold blankIf; split <;> exact ⟨rfl, rfl, rfl⟩
+
+/-- `parent_children`: in the built tree every node except the root has a parent link, and it points
+(by position) to a node that occurs *earlier* in `root.iter()` and is an element or the document;
+the root — the node at the first position — is the only node without parent. -/
+theorem parent_children (i : Input) (root : PNode) (h : build i = .ok root) (hwf : inputWF i = true) :
+    ∀ r ∈ iter root,
+      (r.pos = root.pos ∧ r.parent = none) ∨
+      ∃ q, r.parent = some q ∧ q < r.pos ∧
+        ∃ pr ∈ iter root, pr.pos = q ∧ (pr.kind = .element ∨ pr.kind = .document) := by
+  obtain ⟨items, hs, he⟩ := iter_eq_spec i root h hwf
+  have hpar := specItems_parentOK i items hs
+  intro r hr
+  have hr' : blankIf true r ∈ ((items.map (place root.pos)).map (blankIf true)) := by
+    rw [← he]; exact List.mem_map_of_mem hr
+  simp only [List.mem_map] at hr'
+  obtain ⟨_, ⟨it, hit, rfl⟩, heq⟩ := hr'
+  have f1 := blankIf_fields true r
+  have f2 := blankIf_fields true (place root.pos it)
+  rw [← heq] at f1
+  have hpos : r.pos = root.pos + it.idx := by rw [← f1.1, f2.1]; rfl
+  have hparent : r.parent = it.parent.map (root.pos + ·) := by rw [← f1.2.1, f2.2.1]; rfl
+  rcases hpar it hit with ⟨h0, hn⟩ | ⟨q, hq, hlt, pit, hpm, hpi, hpk⟩
+  · left; rw [hpos, hparent, h0, hn]; exact ⟨rfl, rfl⟩
+  · right
+    refine ⟨root.pos + q, by rw [hparent, hq]; rfl, by rw [hpos]; omega, ?_⟩
+    have hp' : blankIf true (place root.pos pit) ∈ (iter root).map (blankIf true) := by
+      rw [he]; exact List.mem_map_of_mem (List.mem_map_of_mem hpm)
+    simp only [List.mem_map] at hp'
+    obtain ⟨pr, hprm, hpreq⟩ := hp'
+    have g1 := blankIf_fields true pr
+    have g2 := blankIf_fields true (place root.pos pit)
+    rw [hpreq] at g1
+    refine ⟨pr, hprm, ?_, ?_⟩
+    · rw [← g1.1, g2.1]; simp [place, hpi]
+    · rw [← g1.2.2, g2.2.2]; exact hpk
 
 /-- the well-formedness hypothesis cannot be dropped from `gap_exact`: with a (non-dict) map that
 lists the `xml` prefix twice a position is skipped — while the strict order still holds. -/
@@ -260,6 +326,35 @@ theorem sorted_result_is_document_order (i : Input) (root : PNode) (h : build i 
   rw [mem_select]
   simp only [List.contains_iff_mem]
   exact ⟨fun hm => ⟨hv a hm, hm⟩, fun hm => hm.2⟩
+
+/-- `fn:innermost($S)` as implemented (collect the `ancestor` axis of every member by following
+`.parent`, drop the members found there, sort by position) is the spec's "members that are not an
+ancestor of another member, in document order, without duplicates". -/
+theorem innermost_eq_spec (i : Input) (root : PNode) (h : build i = .ok root) (hwf : inputWF i = true)
+    (xs : List Nat) (hx : ∀ a ∈ xs, a < (iter root).length) :
+    ∃ items, specItems i = some items ∧ opInnermost (iter root) xs = specInnermost items xs := by
+  obtain ⟨items, hs, he⟩ := iter_eq_spec i root h hwf
+  have F := faithful_of_image (iter root) items root.pos he (specItems_idxs i items hs) (specItems_parentOK i items hs)
+  exact ⟨items, hs, F.innermost (build_positions_strict i root h) xs hx⟩
+
+/-- `fn:outermost($S)` likewise: "members that have no ancestor among the members". -/
+theorem outermost_eq_spec (i : Input) (root : PNode) (h : build i = .ok root) (hwf : inputWF i = true)
+    (xs : List Nat) (hx : ∀ a ∈ xs, a < (iter root).length) :
+    ∃ items, specItems i = some items ∧ opOutermost (iter root) xs = specOutermost items xs := by
+  obtain ⟨items, hs, he⟩ := iter_eq_spec i root h hwf
+  have F := faithful_of_image (iter root) items root.pos he (specItems_idxs i items hs) (specItems_parentOK i items hs)
+  exact ⟨items, hs, F.outermost (build_positions_strict i root h) xs hx⟩
+
+/-- test on a literal (`<x><y><x/></y><a/></x>`, S = {x, y, inner x, a}): innermost = {inner x, a},
+outermost = {x} -/
+example :
+    let t : XTree := .elem "x" [] [] none [.elem "y" [] [] none [.elem "x" [] [] none [] none] none,
+                                             .elem "a" [] [] none [] none] none
+    let i : Input := { cfg := { lxml := false, namespaces := [], fragment := none }, isTree := false,
+                       prolog := [], top := some t, epilog := [], path := [] }
+    inputWF i = true ∧
+    (specItems i).map (fun items => (specInnermost items [0, 2, 4, 6, 4], specOutermost items [6, 2, 4, 0]))
+      = some ([4, 6], [0]) := by decide
 
 /-- `fn:root($n)` of a node of the tree is the first node of `root.iter()` -/
 theorem root_is_top (nodes : List Rec) (a : Nat) : opRoot nodes a = specRoot nodes.length a := rfl
